@@ -104,10 +104,12 @@ class PathCtx:
         self.assumes: List[Any] = []
         self.results: List[CheckResult] = []
         self.inputs: Dict[str, Any] = {}  # name -> z3 const, for model extraction
+        self.observed: Dict[str, Any] = {}  # name -> z3 term evaluated under every extracted model
         self.notes: Dict[str, Any] = {}
         self.unknown_branches = 0
         self.fresh_counter = 0
         self.path_id: Optional[int] = None
+        self.last_query = None
 
     # -- context management
     def __enter__(self):
@@ -122,6 +124,10 @@ class PathCtx:
     def register(self, name: str, const):
         self.inputs[name] = const
         return const
+
+    def observe(self, name: str, term):
+        self.observed[name] = term
+        return term
 
     def fresh_name(self, base: str) -> str:
         self.fresh_counter += 1
@@ -183,20 +189,29 @@ class PathCtx:
 
     # -- obligations
     def check(self, label: str, cond, detail=None) -> CheckResult:
-        """Obligation: `cond` must hold for every value satisfying the path condition."""
+        """Obligation: `cond` must hold for every value satisfying the path condition.
+        Decided by a *fresh* solver (z3's tactic pipeline: nlsat for QF_NRA, bit-blasting for
+        QF_FP/BV); the incremental solver used for branching would fall back to weaker cores."""
         c = _to_z3_bool(cond)
-        self.solver.push()
-        self.solver.add(z3.Not(c))
-        r = _timed_check(self.solver)
+        cs = z3.simplify(c)
+        if z3.is_true(cs):
+            res = CheckResult(label, "holds", None, detail, self.path_id)
+            self.results.append(res)
+            return res
+        s = z3.Solver()
+        s.set("timeout", self.timeout_ms)
+        s.add(*self.solver.assertions())
+        s.add(z3.Not(c))
+        r = _timed_check(s)
         model = None
         if r == "sat":
-            model = self.extract_model(self.solver.model())
+            model = self.extract_model(s.model())
             status = "violated"
         elif r == "unsat":
             status = "holds"
         else:
             status = "unknown"
-        self.solver.pop()
+        self.last_query = s
         res = CheckResult(label, status, model, detail, self.path_id)
         self.results.append(res)
         return res
@@ -230,6 +245,9 @@ class PathCtx:
         for name, const in self.inputs.items():
             v = m.eval(const, model_completion=True)
             out[name] = z3_value_to_py(v)
+        for name, term in self.observed.items():
+            v = m.eval(term, model_completion=True)
+            out["obs:" + name] = z3_value_to_py(z3.simplify(v))
         return out
 
     def path_condition(self):
@@ -372,8 +390,10 @@ def explore(fn: Callable[[PathCtx], Any], max_paths: int = 20000, max_decisions:
                 o.kind = "domain"
                 o.exc = e
             except HarnessError as e:
+                import traceback as _tb
                 o.kind = "harness_error"
-                o.exc = e
+                frames = [f"{fr.filename.split('/')[-1]}:{fr.lineno}:{fr.name}" for fr in _tb.extract_tb(e.__traceback__)]
+                o.exc = HarnessError(f"{e} [at {' <- '.join(reversed(frames[-6:]))}]")
         o.decisions = [t[1] for t in ctx.taken]
         o.n_taken = len(ctx.taken)
         o.results = ctx.results
